@@ -12,7 +12,9 @@ LEVEL = "exploration"
 ALT_MOUNT = True          # run once more with procfs mounted at /hostproc (vf/child.py)
 PATHS = [b"", b"/lib/a.so", b"/lib/a.so", b"/tmp/a b", b"/x:y", b"/tmp/z (deleted)", b"[heap]", b"/lit (deleted)", b"/p\xff", b"/srv/a  b", b"/srv/a b", b"/srv/t\tb",
          # unlinked files whose own name ends in letters of the " (deleted)" marker
-         b"/usr/bin/sed (deleted)", b"/tmp/deleted (deleted)"]
+         b"/usr/bin/sed (deleted)", b"/tmp/deleted (deleted)",
+         # a carriage return in the path (only '\n' is escaped by the kernel)
+         b"/srv/up\rload/lib one.so"]
 BOUND = [0, 1, 2 ** 31 - 1, 2 ** 32, 2 ** 40, 2 ** 52]
 FIELDS = ["rss", "size", "pss", "shared_clean", "shared_dirty", "private_clean", "private_dirty", "referenced", "anonymous", "swap"]
 KEY_OF = {"rss": "Rss", "size": "Size", "pss": "Pss", "shared_clean": "Shared_Clean", "shared_dirty": "Shared_Dirty",
